@@ -331,4 +331,44 @@ def unit5Calls : List (String × String × String × String) := [
   ("LinkedLayer", "write", "write_padding", "fp, written, padding")
 ]
 
+/-! ### unit 6: descriptor-wrapping payloads of tagged_blocks.py -/
+
+def smartObjectKinds : List (List UInt8) := [[115, 111, 76, 68]]
+def smartObjectVersions : List Nat := [4, 5]
+def placedVersions : List Nat := [3]
+def placedLayerTypes : List Nat := [0, 1, 2, 3]
+def typeToolTextVersions : List Nat := [50]
+def typeToolWarpVersions : List Nat := [1]
+def unit6Registry : List (List UInt8 × String) := [
+  ([80, 108, 76, 100], "PlacedLayerData"),
+  ([83, 111, 76, 69], "SmartObjectLayerData"),
+  ([83, 111, 76, 100], "SmartObjectLayerData"),
+  ([84, 121, 83, 104], "TypeToolObjectSetting"),
+  ([112, 108, 76, 100], "PlacedLayerData")
+]
+def unit6Calls : List (String × String × String × String) := [
+  ("SmartObjectLayerData", "read", "read_fmt", "'4sI', fp"),
+  ("SmartObjectLayerData", "write", "write_fmt", "fp, '4sI', self.kind, self.version"),
+  ("SmartObjectLayerData", "write", "write_padding", "fp, written, padding"),
+  ("PlacedLayerData", "read", "read_fmt", "'4sI', fp"),
+  ("PlacedLayerData", "read", "read_pascal_string", "fp, 'macroman', padding=1"),
+  ("PlacedLayerData", "read", "read_fmt", "'4I', fp"),
+  ("PlacedLayerData", "read", "read_fmt", "'8d', fp"),
+  ("PlacedLayerData", "write", "write_fmt", "fp, '4sI', self.kind, self.version"),
+  ("PlacedLayerData", "write", "write_pascal_string", "fp, self.uuid, 'macroman', padding=1"),
+  ("PlacedLayerData", "write", "write_fmt", "fp, '4I', self.page, self.total_pages, self.anti_alias, self.layer_type.value"),
+  ("PlacedLayerData", "write", "write_fmt", "fp, '8d', *self.transform"),
+  ("PlacedLayerData", "write", "write_padding", "fp, written, padding"),
+  ("TypeToolObjectSetting", "read", "read_fmt", "'H', fp"),
+  ("TypeToolObjectSetting", "read", "read_fmt", "'6d', fp"),
+  ("TypeToolObjectSetting", "read", "read_fmt", "'H', fp"),
+  ("TypeToolObjectSetting", "read", "read_fmt", "'H', fp"),
+  ("TypeToolObjectSetting", "read", "read_fmt", "'4i', fp"),
+  ("TypeToolObjectSetting", "write", "write_fmt", "fp, 'H6d', self.version, *self.transform"),
+  ("TypeToolObjectSetting", "write", "write_fmt", "fp, 'H', self.text_version"),
+  ("TypeToolObjectSetting", "write", "write_fmt", "fp, 'H', self.warp_version"),
+  ("TypeToolObjectSetting", "write", "write_fmt", "fp, '4i', self.left, self.top, self.right, self.bottom"),
+  ("TypeToolObjectSetting", "write", "write_padding", "fp, written, padding")
+]
+
 end PsdVerif.Payload.Tables
